@@ -103,7 +103,15 @@ def run_case(c: dict) -> CaseResult:
             for i, m in enumerate(seq):
                 sess.send(m, delay=(1 + i) / 64)
         else:
-            sess.send(*seq, cuts=c.get("cuts"))
+            tr_ = c.get("trailer")
+            data = b"".join(sess.encode(m) for m in seq)
+            if tr_ == "discreq":
+                data += sess.encode(pb.DisconnectRequest())
+            elif tr_ == "garbage":
+                data += b"\x02\x00\x00zz" if noise else b"\x07\x01\x02"
+            sess.send_raw(data, cuts=c.get("cuts"))
+            if tr_ == "eof":
+                env.loop.sim_after(max(dev.latency, sess._next_feed - env.loop.time()), sess.transport.feed_eof)
 
     answered = []
 
@@ -144,6 +152,11 @@ def run_case(c: dict) -> CaseResult:
         raise HarnessError(str(e)) from e
     r = env.results.get("main")
     must, classes_ok, why = decide(c)
+    if c.get("trailer") and not c.get("separate"):
+        if must is True:
+            must, why = None, "accepted-answer-followed-by-close"  # what then happens is C05's business
+        elif must is False and why in ("no-hello", "no-connect-response"):
+            classes_ok = {"*any*"}  # the close arrives before the timeout would
     outcome = "pending" if r is None else "ok" if r[0] == "ok" else type(r[1]).__name__
     if r is None:
         res.violations.append(Violation(ID, "c06:connect-hung", str(c)))
@@ -225,6 +238,9 @@ def _case(draw, tier):
         c["cuts"] = draw(st.lists(st.integers(0, 40), min_size=1, max_size=3))
     elif m == 1:
         c["separate"] = True
+    if m != 1 and draw(st.integers(0, 3)) == 0:
+        # the verdict is followed, in the same chunk / turn, by something that closes the connection
+        c["trailer"] = draw(st.sampled_from(["discreq", "garbage", "eof"]))
     return c
 
 
@@ -249,6 +265,9 @@ def enumerated(tier):
                                                  "api_name": an, "invalid_password": ip, "order": order}
                                             if noise:
                                                 c["noise_name"] = nn
+                                            if order == "hc" and minor == 10 and pw is None:
+                                                for tr_ in ("discreq", "garbage", "eof"):
+                                                    yield {**c, "trailer": tr_}
                                             k = (major + len(an) + len(order) + (1 if ip else 0)) % 3
                                             if k == 1:
                                                 c["cuts"] = [5, 17]
